@@ -137,6 +137,7 @@ fn main() {
                     }
                 }
                 "C14mut" => writeln!(out, "{}", c14::mutate(n)).unwrap(),
+                "C17file" => writeln!(out, "{}", c14::linkdir_channel()).unwrap(),
                 "C19meta" => writeln!(out, "{}", wire::from_meta_checks(n)).unwrap(),
                 "C09bits" => writeln!(out, "{}", lifecycle::Ctx::new(&common::family()).all_bits(n)).unwrap(),
                 "C10all" => writeln!(out, "{}", c10::all_scalars(n.max(1) as u32)).unwrap(),
